@@ -34,7 +34,8 @@ ASSUMPTIONS = [
 BOUND = {
     "quick": "6 structures x 6 force fields x 4 ffout values (none, AMBER, "
     "CHARMM, one seed-chosen; thorough: all 7) x 32 subsets; "
-    "drop-water x 4 structures x 6 force fields x 2 option sets; neutral "
+    "drop-water x 4 structures x 6 force fields x 2 option sets + two-chain "
+    "layouts (3 water placements x chain ids x OXT); neutral "
     "termini: 20 residue types x 4 flag subsets x 3 layouts (one with a "
     "hidden chain end); 3 structures x 32 subsets with --clean as base",
     "thorough": "same plus --noopt/--nodebump variants of the base run",
